@@ -23,7 +23,7 @@ open Aoe Aoe.Codec Aoe.Lens
 inductive PStep
   | fld (i : Nat)
   | hidx (k : Nat)
-  deriving Repr
+  deriving Repr, DecidableEq
 
 /-- where a refreshed value is written: a retriever of the record that holds the pushed retriever, or of a section -/
 inductive Dest
